@@ -51,7 +51,9 @@ def _value_level(ctx, binp, n, corr, with_model=True):
     orc = open(forc).read().split('\n')
     model = None
     if with_model:
-        V.sh([os.path.join(V.ROOT, 'tools', 'build_extract.sh'), 'json'], check=True)
+        rc, o = V.sh([os.path.join(V.ROOT, 'tools', 'build_extract.sh'), 'json'])
+        if rc != 0:
+            raise V.BuildError('extraction of the JSON model failed: ' + o[-2000:])
         drv = os.path.join(V.BUILD, 'extract', 'json', 'json_driver')
         rc, o = V.sh(drv + ' < ' + fin, timeout=1800)
         if rc != 0:
@@ -98,7 +100,7 @@ def _value_level(ctx, binp, n, corr, with_model=True):
 
 
 def correspondence(ctx):
-    n = 120 if ctx.tier == 'quick' else 1200
+    n = 240 if ctx.tier == 'quick' else 1200
     binp = ctx.go_build('c11')
     out = _gen_structured(ctx, binp, n)
     corr = V.evaluate_case_file(ctx, out, ['model.ToJson'])
